@@ -13,9 +13,10 @@ reachable bytes."
 fragment. Here it is proved for **all 47 instructions** (`step_schedule_independent`) and lifted
 to the dispatch loop, nested `run_function`s and `Vm::run` (`schedule_independence`).
 
-The statement for *arbitrary* bytecode is false (`C05b.schedule_independence_Full_false`: a
-`ClearStack` that moves the stack pointer upwards resurrects a stale slot whose referent a forced
-collection may or may not have freed). The side condition is made explicit as a *check*:
+The statement for *arbitrary* bytecode is false (`C05b.schedule_independence_Full_false`: an
+open upvalue whose slot was dropped with `pop_n` reads a stale slot whose referent a forced
+collection may or may not have freed; before the repair of `clear_until` a `ClearStack` that moved
+the stack pointer upwards did the same). The side condition is made explicit as a *check*:
 
 * `StepOk p src s` (decidable form `stepOkB`): `ClearStack`/`Return` find the running frame at or
   below the stack height (`FrameOk`); `Return`/`CloseUpvalue` find every listed open upvalue
